@@ -407,6 +407,23 @@ EXTRA6 = {
            "violation (state kept in the process).",
     "C20": "A process keeps its form between start list and later contexts when types are filtered.",
 }
+EXTRA7 = {
+    "C01": "A placeholder in another tag excuses nothing; testlib_1.0.2 in the quick tier.",
+    "C03": "The text of a live tag replaced by another spelling; values that repeat a term of the tag's path.",
+    "C04": "Several misplaced reserved tags in one group; one text under two value classes.",
+    "C05": "Schemas without prologue / epilogue; a TSV directory given with a trailing separator.",
+    "C06": "A categorical level left unannotated.",
+    "C07": "E2 sequences of files through one SpreadsheetValidator; a tag column asked for under a name the sheet lacks.",
+    "C08": "A closing brace before the first opening one; falsy category values of every JSON type.",
+    "C09": "Duplicates across merged dictionaries; altered Def-expand content written before the tag.",
+    "C10": "Onsets in seconds since 1970; onsets whose text order is not their numeric order.",
+    "C12": "Offsets under a namespace prefix.",
+    "C13": "The same library twice inside one comma-separated entry.",
+    "C14": "The hedId zero.",
+    "C15": "One atom k times counts distinct tags; handlers stay aligned with their queries.",
+    "C17": "Merged runs whose latest end is not the last row's.",
+    "C19": "H6 monitor: downloads happen while the refresher holds the lock.",
+}
 for _k, _v in EXTRA3.items():
     EXTRA[_k] = EXTRA.get(_k, "") + ("  " if _k in EXTRA else "") + _v
 for _k, _v in EXTRA4.items():
@@ -414,6 +431,8 @@ for _k, _v in EXTRA4.items():
 for _k, _v in EXTRA5.items():
     EXTRA[_k] = EXTRA.get(_k, "") + ("  " if _k in EXTRA else "") + _v
 for _k, _v in EXTRA6.items():
+    EXTRA[_k] = EXTRA.get(_k, "") + ("  " if _k in EXTRA else "") + _v
+for _k, _v in EXTRA7.items():
     EXTRA[_k] = EXTRA.get(_k, "") + ("  " if _k in EXTRA else "") + _v
 for _k, _v in EXTRA.items():
     CHECKS[_k]["text"] += "  Extended: " + _v
@@ -429,6 +448,8 @@ CHECKS["C10"]["technique"] += "; sequences of files through one validator object
 CHECKS["C01"]["engine"] = "E1+E2"
 CHECKS["C01"]["technique"] += "; explicit-state exploration of annotation sequences on one validator object and of prefix changes on one schema object"
 CHECKS["C06"]["technique"] += "; sidecar-replacement histories on one table object"
+CHECKS["C07"]["engine"] = "E1+E2"
+CHECKS["C07"]["technique"] += "; explicit-state exploration of edit histories on one table and of file sequences through one validator"
 CHECKS["C18"]["technique"] += "; operation histories with two backup names on one manager object"
 
 
